@@ -146,24 +146,46 @@ def coq_build_cone(dirs, timeout=1800, clean_dirs=()):
             for f in glob.glob(os.path.join(COQ, d, "*.vo")):
                 os.remove(f)
         unlock()
-        rc, out = sh(["coqdep", "-sort", "-Q", ".", "Verif"] + rel, cwd=COQ, timeout=120, quiet=True)
+        rc, out = sh(["coqdep", "-Q", ".", "Verif"] + rel, cwd=COQ, timeout=120, quiet=True)
         if rc != 0:
             return rc, out
-        order = [x for x in out.split() if x.endswith(".v")]
-        newest = 0.0
+        deps = {}
+        for line in out.split("\n"):
+            m = re.match(r"^(\S+)\.vo \S+\.glob .*?: (\S+\.v)\s*(.*)$", line)
+            if m:
+                deps[m.group(2)] = [d[:-1] for d in m.group(3).split() if d.endswith(".vo")]   # X.vo -> X.v
+        # topological order over the cone (dependencies outside the cone = stdlib, ignored)
+        order, seen = [], set()
+
+        def visit(v):
+            if v in seen or v not in deps:
+                return
+            seen.add(v)
+            for d in deps[v]:
+                visit(d)
+            order.append(v)
+        for v in rel:
+            visit(v)
         log_out = []
         t0 = time.time()
+        rebuilt = set()
         for v in order:
-            lock_dir(v.split("/")[0].lstrip("./") or "Common")
+            lock_dir(v.split("/")[0])
             vp = os.path.join(COQ, v)
             vo = vp + "o"
-            need = (not os.path.exists(vo)) or os.path.getmtime(vo) < os.path.getmtime(vp) or os.path.getmtime(vo) < newest
+            need = (not os.path.exists(vo)) or os.path.getmtime(vo) < os.path.getmtime(vp)
+            if not need:
+                for d in deps[v]:
+                    dvo = os.path.join(COQ, d) + "o"
+                    if d in rebuilt or (os.path.exists(dvo) and os.path.getmtime(dvo) > os.path.getmtime(vo)):
+                        need = True
+                        break
             if need:
                 rc, o = sh(["coqc", "-Q", ".", "Verif", v], cwd=COQ, timeout=max(60, timeout - (time.time() - t0)))
                 log_out.append(o)
                 if rc != 0:
                     return rc, "\n".join(log_out)[-4000:]
-            newest = max(newest, os.path.getmtime(vo))
+                rebuilt.add(v)
         return 0, "\n".join(log_out)
     finally:
         unlock()
